@@ -102,3 +102,91 @@ UNITS = [
          assumptions=["per-surface safety (CalcSafetyDistance) >= 0 and not NaN (sqrt inside; assumed)", "faces of a volume are valid surface ids"],
          note="SimpleUnitTracker::safety: >= 0, <= every face's own safety, == 0 for volumes without the simple-safety flag (any number of faces)"),
 ]
+
+
+# ---------------------------------------------------------------------------
+# OrangeTrackView::find_safety: minimum over ALL nesting levels
+# ---------------------------------------------------------------------------
+OTV = "src/orange/OrangeTrackView.hh"
+FS_MODEL = """
+#include <math.h>
+#define NLEV 16
+typedef struct { size_type level_; bool on_boundary_; } OrangeTrackView;    /* this->level(), this->is_on_boundary() */
+typedef size_type LSA;                                                       /* LevelStateAccessor -> the level it designates */
+real_type g_sd[NLEV];      /* ghost: the safety the tracker of each level's universe reports at that level's local position (any non-negative value; SimpleUnitTracker::safety is under contract in c11_unit_safety) */
+size_type g_w;             /* ghost witness level */
+static LSA OTV_make_lsa(OrangeTrackView const* self, size_type lev) { __CPROVER_assert(lev <= self->level_, "celer_expect: make_lsa(level) level <= current level"); return lev; }
+static real_type LEVEL_safety(OrangeTrackView const* self, LSA lsa) { __CPROVER_assert(lsa < NLEV, "level index within the state's depth"); return g_sd[lsa]; }
+static real_type celer_min(real_type a, real_type b) { return fmin(a, b); }   /* celeritas::min<floating> == std::fmin (extracted and checked in c14_msc_*) */
+#define SD_OK(i) (g_sd[i] >= 0)
+#define ALL_SD_OK (SD_OK(0) && SD_OK(1) && SD_OK(2) && SD_OK(3) && SD_OK(4) && SD_OK(5) && SD_OK(6) && SD_OK(7) && SD_OK(8) && SD_OK(9) && SD_OK(10) && SD_OK(11) && SD_OK(12) && SD_OK(13) && SD_OK(14) && SD_OK(15))
+"""
+# the "safety of one level through its universe's tracker" idiom, wherever it occurs in the two functions
+FS_RULES = [
+    Rule(r"CELER_EXPECT\(!this->is_on_boundary\(\)\);", "CELER_EXPECT(!self->on_boundary_);", "*", note="view accessor"),
+    Rule(r"TrackerVisitor visit_tracker\{params_\};", "", "*", note="visitor construction dropped (dispatch on the tracker type is stubbed)"),
+    Rule(r"numeric_limits<real_type>::infinity\(\)", "__builtin_inf()", "*", note="numeric_limits::infinity"),
+    Rule(r"for \(auto lev : range\(LevelId\{([^{}]*)\}\)\)", r"for (size_type lev = 0; lev < (\1); ++lev)", "*", note="range-for over LevelId range -> counting loop"),
+    Rule(r"this->level\(\)", "self->level_", "*", note="view accessor"),
+    Rule(r"auto lsa = this->make_lsa\(lev\);", "LSA lsa = OTV_make_lsa(self, lev);", "*", note="level accessor"),
+    Rule(r"auto lsa = this->make_lsa\(\);", "LSA lsa = OTV_make_lsa(self, self->level_);", "*", note="level accessor of the deepest level"),
+    Rule(r"(?:visit_tracker|TrackerVisitor\{params_\})\(\s*\[&lsa\]\(auto&& t\) \{ return t\.safety\(lsa\.pos\(\), lsa\.vol\(\)\); \},\s*lsa\.universe\(\)\)", "LEVEL_safety(self, lsa)", "*",
+         note="tracker visitor computing the level's safety -> stub (any non-negative value per level)"),
+    Rule(r"auto sd = ", "real_type sd = ", "*", note="auto"),
+    Rule(r"celeritas::min\(", "celer_min(", "*", note="celeritas::min"),
+    Rule(r"this->find_safety\(\)", "FS_call(self)", "*", note="member call"),
+]
+FS_LOOP = LoopContracts([
+    "    __CPROVER_assigns(lev, min_safety_dist)\n"
+    "    __CPROVER_loop_invariant(lev <= self->level_ + 1 && min_safety_dist >= 0)\n"
+    "    __CPROVER_loop_invariant(g_w < lev ==> min_safety_dist <= g_sd[g_w])\n"
+    "    __CPROVER_decreases(self->level_ + 1 - lev)\n"])
+FS_CONTRACT = """
+__CPROVER_requires(self != 0 && self->level_ < NLEV && g_w < NLEV && ALL_SD_OK)
+__CPROVER_requires(!self->on_boundary_)       /* own CELER_EXPECT */
+__CPROVER_assigns()
+/* non-negative and not larger than the safety of ANY level from the root down to the current one */
+__CPROVER_ensures(__CPROVER_return_value >= 0 && (g_w <= self->level_ ==> __CPROVER_return_value <= g_sd[g_w]))
+"""
+
+
+def build_find_safety(ctx):
+    pc = ctx.func(OTV, r"^CELER_FUNCTION real_type OrangeTrackView::find_safety\(\)", FS_RULES + [FS_LOOP], name="OrangeTrackView::find_safety()")
+    return (HDR + FS_MODEL + "real_type FS_call(OrangeTrackView const* self)" + FS_CONTRACT + "{" + pc.body + """}
+void h_fs(void)
+{
+    OrangeTrackView v;
+    FS_call(&v);
+    VERIF_CANARY();
+}
+""")
+
+
+def build_find_safety_max(ctx):
+    pc = ctx.func(OTV, r"^CELER_FUNCTION real_type OrangeTrackView::find_safety\(real_type", FS_RULES, name="OrangeTrackView::find_safety(real_type)")
+    import re
+    m = re.search(r"find_safety\(real_type\s*(\w*)\)", pc.head)
+    pname = (m.group(1) if m and m.group(1) else "max_safety_unused_")
+    return (HDR + FS_MODEL + "real_type FS_call(OrangeTrackView const* self)" + FS_CONTRACT + ";\n"
+            + "real_type FS_max(OrangeTrackView const* self, real_type " + pname + ")"
+            + FS_CONTRACT.replace("__CPROVER_requires(!self->on_boundary_)", "__CPROVER_requires(!self->on_boundary_ && " + pname + " > 0)")
+            + "{" + pc.body + """}
+void h_fsm(void)
+{
+    OrangeTrackView v; real_type m;
+    FS_max(&v, m);
+    VERIF_CANARY();
+}
+""")
+
+
+UNITS += [
+    Unit("c11_find_safety", build_find_safety, "h_fs", enforce="FS_call", loop_contracts=True, timeout=300, backend=["sat", "cvc5", "z3"],
+         must_have=[r"FS_call.postcondition", r"loop_invariant_step", r"celer_expect"], checks=["--bounds-check", "--pointer-check"],
+         assumptions=["each level's tracker reports a non-negative safety (SimpleUnitTracker::safety under contract in c11_unit_safety; RectArrayTracker not)"],
+         note="OrangeTrackView::find_safety(): for any nesting depth (loop contract) the result is >= 0 and <= the safety of EVERY level from the root to the current one"),
+    Unit("c11_find_safety_max", build_find_safety_max, "h_fsm", enforce="FS_max", replace=["FS_call"], timeout=300, backend=["sat", "cvc5", "z3"],
+         must_have=[r"FS_max.postcondition"], checks=["--bounds-check", "--pointer-check"],
+         assumptions=["find_safety() by its contract (c11_find_safety)"],
+         note="OrangeTrackView::find_safety(max): same guarantee as find_safety() (never larger than any level's safety), whatever use is made of the search radius"),
+]
